@@ -2,9 +2,11 @@
   C06 — no lock of a finished transaction is left behind on failure-free paths.  The client-side bookkeeping
   (lockKeys, aggressive locking, async rollback) is exercised on the real client by checks/c06.py; the judge fails a
   trace in which `audit locks` shows a lock of a transaction whose owner saw it end.  Proved here: the release
-  requests the client relies on do release on the store.
+  requests the client relies on do release on the store; and, for every reachable store state, a key on which the
+  transaction has its commit record or rollback marker is not locked by it, nor can it be locked by it again.
 -/
 import ClientGoVerif.Proofs.MvccLocks
+import ClientGoVerif.Proofs.MvccTemporal
 namespace CGV.Props.C06
 open CGV CGV.Mvcc
 
@@ -23,5 +25,20 @@ theorem pessimistic_rollback_releases (s : Store) (a b : Bytes) (k : Bytes) (T F
   simp only [this, if_true]
   rw [getEntry_applyBatch _ _ _ hs]
   simp [Act.key, entryAct]
+
+/-- in every reachable state, a key where the transaction already has its record (commit or rollback) carries no lock
+    of that transaction -/
+theorem finished_key_carries_no_lock (s : Store) (h : Reachable s) (k : Bytes) (T : Nat)
+    (hrec : ∃ w ∈ (getEntry s.kv k).writes, w.startTS = T) :
+    ∀ l, (getEntry s.kv k).lock = some l → l.startTS ≠ T :=
+  finished_key_not_locked _ (h.inv.2 k) T hrec
+
+/-- … and no later command can lock it for that transaction again: the step the key takes is never `locks T` -/
+theorem finished_key_never_relocked (s : Store) (c : Cmd) (hs : SInv s) (hok : c.Ok s) (k : Bytes) (T : Nat)
+    (hrec : ∃ w ∈ (getEntry s.kv k).writes, w.startTS = T) :
+    ∃ lab, c.labels k lab ∧ KStep (getEntry s.kv k) lab (getEntry (c.run s).kv k) ∧ lab ≠ .locks T := by
+  obtain ⟨lab, hlab, hst⟩ := (run_refines s c hs hok).2 k
+  refine ⟨lab, hlab, hst, fun heq => ?_⟩
+  exact hst.final (hs.2 k) hrec (by rw [heq]; rfl)
 
 end CGV.Props.C06
